@@ -304,6 +304,37 @@ def call_fn_item(eng, f, args):
     raise Unknown("function item " + n)
 
 
+class ParCall:
+    """Outcome value: run `push` (a PushCall) and hand its return value to cont(eng, st, rv) -> outcomes."""
+
+    def __init__(self, push, cont):
+        self.push, self.cont = push, cont
+
+
+def hof_start(eng, st, step, data):
+    """Drive a higher-order std function from a model: `step(eng, st, job, last)` is called first with
+    last=None and then with the return value of every closure call it asked for; it returns either
+    ("call", fnval, args) or ("done", outcomes).  All progress lives in job (inside st.env) so that
+    path forks inside the closure keep independent copies."""
+    job = dict(data)
+    job["step"] = step
+    st.env.setdefault("hof", []).append(job)
+    return _hof_next(eng, st, None)
+
+
+def _hof_next(eng, st, last):
+    job = st.env["hof"][-1]
+    r = job["step"](eng, st, job, last)
+    if r[0] == "done":
+        st.env["hof"].pop()
+        return r[1]
+    return one(ParCall(call_fn_item(eng, r[1], r[2]), _hof_cont))
+
+
+def _hof_cont(eng, st, rv):
+    return _hof_next(eng, st, rv)
+
+
 @model(r"^NonZero::<\w+>::get$")
 def m_nonzero_get(eng, st, callee, a, ty):
     return one(a[0])
